@@ -42,7 +42,7 @@ def _worker(job):
         from pyvc import run, api
         api.OPEN_FINDINGS = set(e["id"] for e in load_known_findings().get("open", []))
         mod = _load(prop)
-        fn = [h for h in mod.HARNESSES if h.__name__ == hname][0]
+        fn = [h for h in list(mod.HARNESSES) + list(getattr(mod, "THOROUGH_HARNESSES", [])) if h.__name__ == hname][0]
         timeout_ms = 10000 if tier == "quick" else 60000
         opts = getattr(fn, "opts", {})
         res = run.run_harness(fn, name=hname, solver_timeout_ms=opts.get("timeout_ms", timeout_ms),
@@ -148,7 +148,7 @@ def do_replay(prop, path, repo):
     with open(path) as f:
         rp = json.load(f)
     mod = _load(prop)
-    fn = [h for h in mod.HARNESSES if h.__name__ == rp["harness"]][0]
+    fn = [h for h in list(mod.HARNESSES) + list(getattr(mod, "THOROUGH_HARNESSES", [])) if h.__name__ == rp["harness"]][0]
     r = run.replay_native(fn, rp.get("inputs") or {})
     print(json.dumps(r, indent=1))
     if rp["label"] in r["failed"]:
